@@ -135,12 +135,18 @@ def fam_angle(ctx, box, nfree):
         ctx.fail('C18:Vector.angle raises %s' % exc_sig(ang), repr(ang))
     ab = R.dot(a, b)
     if ctx.mode == 'sym':
-        if not isinstance(ang, shims.SymAcos) or ang.kind != 'acos':
-            ctx.fail('C18:angle is not an arccos value')
-        x = ang.x
-        ctx.require(And(x >= -1, x <= 1), 'C18:angle outside [0, pi]')
+        if isinstance(ang, shims.SymAcos) and ang.kind == 'acos':
+            x = ang.x
+        elif isinstance(ang, (int, float, F)):
+            import math
+            if not (0 <= ang <= math.pi + 1e-15):
+                ctx.fail('C18:angle outside [0, pi]', repr(ang))
+            x = F(math.cos(ang))
+        else:
+            ctx.fail('C18:angle is not an arccos value', repr(ang))
+        ctx.require(And(x >= -1 - F(1, 10 ** 9), x <= 1 + F(1, 10 ** 9)), 'C18:angle outside [0, pi]')
         # x has the sign of a.b and x^2 = (a.b)^2/(aa bb)
-        ctx.require(And(x * x * aa * bb == ab * ab, Or(And(x >= 0, ab >= 0), And(x <= 0, ab <= 0))),
+        ctx.require(And(near(x * x * aa * bb, ab * ab, F(1, 10 ** 9) * aa * bb), Or(And(x >= 0, ab >= 0), And(x <= 0, ab <= 0))),
                     'C18:angle is not arccos(a.b/(|a||b|))')
     else:
         import math
